@@ -49,14 +49,17 @@ PROPS = {
                 "release builds; a counting allocator and a progress file attribute aborts, hangs and stack overflows. "
                 "distinct = distinct (type, bytes) on which the implementation returns Ok",
         "trusted": MODEL_TRUST,
-        "partial": "panic-freedom of the decoder programs on arbitrary input is not yet a theorem (only of the context arithmetic, for every "
-                   "program); stack exhaustion, allocator aborts and time are measured, not modelled; zero-width element sequences excluded (DESIGN 9.7)",
-        "level_text": "Proof (partial): for every decoder program and every input the transcription of DeserializationContext's arithmetic "
-                      "never panics by itself (refinement theorem), primitive reads are total for every requested length, cursors never leave "
-                      "their windows, and valid encodings never reach a panic node. Whether the decoder programs reach a panic node on arbitrary "
-                      "bytes is decided per run by the correspondence: every implementation panic / abort / hang / oversized allocation is an "
-                      "oracle failure, and must have been predicted by the model.",
-        "level_note": "Partial: see coverage.partial. Trusted: Lean kernel, model, harness; Miri/ASan not used.",
+        "partial": "stack exhaustion, allocator aborts and time of the real code are measured, not modelled; chrono / bignum leaves and the two "
+                   "other BinaryInput implementations are outside the decoder model; zero-width element sequences excluded (DESIGN 9.7)",
+        "level_text": "Proof: for every environment passing the decidable check envDecOKb (evaluated by the driver on the generated "
+                      "declarations), every type over it and EVERY byte string, the decoder — through the faithful transcription of "
+                      "DeserializationContext and through the abstract source — returns a value or an error (decode_never_panics): no panic "
+                      "node, no region escaping its window, no empty-stack pop, no index or usize underflow, and the recursion budget "
+                      "|input|+1 is never exhausted (every nested record reads its version byte first; chunk regions lie inside what is "
+                      "left after it; unknown-length loops read a flag byte per turn). The context's arithmetic never panics by itself for "
+                      "every program (refinement theorem), primitive reads are total for every requested length, cursors stay in their "
+                      "windows. Every implementation panic / abort / hang / oversized allocation on the families is an oracle failure.",
+        "level_note": "Outside the model: see coverage.partial. Trusted: Lean kernel, model, harness; Miri/ASan not used.",
     },
     "C06": {
         "families": [{"name": "raw"}, {"name": "decl"}, {"name": "hist"}],
